@@ -3189,7 +3189,7 @@ class Evaluator:
             if not found:
                 return None
             cls, node = found
-            if getattr(self, "dyn_cls", None) is None and self._overridden_below(self.cls, f[2]):
+            if getattr(self, "dyn_cls", None) is None and not getattr(self, "_resolving_alias", False) and self._overridden_below(self.cls, f[2]):
                 return None  # a subclass supplies its own version: which body runs depends on the receiver
             module = cls.module
             fname = f"{cls.name}.{f[2]}"
@@ -3393,7 +3393,11 @@ class Evaluator:
 
     def _alias_call(self, f, call_term):
         """g(Q...) as the call f(P...) of the reference function f that g replaces (sa/alias.py), else None"""
-        tgt = self._inline_target(f)
+        self._resolving_alias = True  # (a renamed reference method is recognised by name and signature, whoever overrides it)
+        try:
+            tgt = self._inline_target(f)
+        finally:
+            self._resolving_alias = False
         if tgt is None:
             return None
         from . import alias
